@@ -68,6 +68,7 @@ import "github.com/glebziz/fs_db/internal/model"
 // Round trip (lemma over the two contracts above; calls use contracts only):
 // every record with canonical ids decodes to exactly what was encoded.
 //@ func lemmaRoundTrip
+//@   modifies mem[uint8]
 //@   requires canonical: uuidCanonical(f.TxId) && uuidCanonical(f.ContentId)
 //@   requires size:      len(data) == 40 + len(f.Key)
 //@   ensures  sameseq:   result.Seq == f.Seq
